@@ -28,7 +28,7 @@ UNITS += [
        note="block-local arena: the region handed out lies inside the store and holds the requested bytes; regions handed out earlier stay allocated (the old store is parked on the reap chain and accounted, never freed here); top stays word aligned and within the store"),
 ]
 UNITS += [
-  Unit("blk_preextrapolate", ["C04", "C15"], "lib/block.c", enforce="_preextrapolate_helper", loops="block_ana.loops", harness="h_blk_preextra.c", entry="h_blk_preextra",
+  Unit("blk_preextrapolate", ["C04"], "lib/block.c", enforce="_preextrapolate_helper", loops="block_ana.loops", harness="h_blk_preextra.c", entry="h_blk_preextra",
        replace=["vorbis_lpc_from_data", "vorbis_lpc_predict"], unwindset=["h_blk_preextra.0:3", "_preextrapolate_helper.2:3"], reach=2, timeout=600, objbits=8,
        assumed=["channels <= 2; lpc.c functions by contract (ranges read/written only; float values not used)", "stack budget 1 MiB per alloca request (contracts/common.h)"],
        note="start-of-stream extrapolation for ANY amount of submitted audio (up to 2^28 samples): scratch memory request within the stack budget, lpc ranges inside the buffers, the one-shot flag always set, marks unchanged"),
@@ -39,4 +39,13 @@ UNITS += [
        unwindset=["h_blk_wrote.0:3", "vorbis_analysis_wrote.0:3"], reach=4, timeout=900, objbits=8,
        assumed=["channels <= 2; lpc.c functions, _preextrapolate_helper (own unit) and vorbis_analysis_buffer by contract", "stack budget 1 MiB per alloca request"],
        note="sample submission: more than the buffer holds is refused and nothing is counted; otherwise exactly vals samples are counted; end of input records the number of real samples as the end mark and appends three long blocks of padding inside the (regrown) rows; start-of-stream extrapolation runs at most once"),
+]
+UNITS += [
+  Unit("blk_analysis_blockout", ["C04", "C05"], "lib/block.c", enforce="vorbis_analysis_blockout", loops="block_ana.loops", harness="h_blk_blockout.c", entry="h_blk_blockout",
+       replace=["_ve_envelope_search", "_ve_envelope_mark", "_ve_envelope_shift", "_vp_ampmax_decay", "_vorbis_block_ripcord", "_vorbis_block_alloc"],
+       unwindset=["h_blk_blockout.0:3", "vorbis_analysis_blockout.0:3", "vorbis_analysis_blockout.1:3"], reach=4, timeout=900, objbits=8,
+       assumed=["channels <= 2; the envelope search answers ANY of -1/0/1 (so the result holds for every sequence of block-size decisions)",
+                "memcpy/memmove modelled as range checks + arbitrary destination bytes; _vorbis_block_alloc by contract (fresh region, unit blk_alloc)",
+                "the encode-side invariant centerW == blocksizes[1]/2 is a precondition (vorbis_analysis_init establishes it; this contract re-establishes it)"],
+       note="block production: no block => no state change; the block carries the position before the advance, consecutive sequence numbers and the state's window flags; window history chains; the centre returns to bs1/2; the granule position advances by the movement but never counts padding after the end mark (it stops exactly at the end mark: the last packet's granule position is the number of submitted samples); the block whose centre reaches the end mark is flagged end-of-stream and is the last; granule positions never decrease"),
 ]
